@@ -285,8 +285,14 @@ func (c06) Run(ts *tape.Set, tier Tier) *Result {
 		}
 		plans = append(plans, faultPlan{kind: kinds[i%3], targets: []cid.Cid{b}, kth: -1, after: 11 * i, flavour: 1 + i%3})
 	}
-	for k := 1; k < nLoads; k++ {
+	// every k when the sweep stays within ~3M block loads per run, otherwise
+	// evenly strided (a de-duplicated DAG can have thousands of loads for a
+	// few dozen blocks, and each execution repeats them all)
+	for k := 1; k < nLoads; k += kthStride(nLoads) {
 		plans = append(plans, faultPlan{kind: kinds[k%3], kth: k, after: 5 * k})
+	}
+	if nLoads > 1 {
+		plans = append(plans, faultPlan{kind: kinds[nLoads%3], kth: nLoads - 1, after: 3})
 	}
 	pr := tape.NewSplitMix(planSeed)
 	if len(order) >= 3 {
